@@ -1491,7 +1491,7 @@ class DirectoryTreeStructureSignatureTask : public Task {
       // We need to merge mode information about the directory itself, in case
       // it changes type.
       auto value = BuildValue::fromData(directoryValue);
-      if (value.isDirectoryContents()) {
+      if (value.isDirectoryContents() || value.isExistingInput()) {
         code = hash_combine(code, value.getOutputInfo().mode & S_IFMT);
       } else {
         code = hash_combine(
